@@ -118,6 +118,12 @@ func (p *Plenc) CodecForTypeRegistry(registry plenccodec.CodecRegistry, typ refl
 		c = plenccodec.PointerWrapper{Underlying: subc}
 
 	case reflect.Struct:
+		if tag != "" && registry.Load(typ, "") != nil {
+			// This struct type has its own registered codec (time.Time for
+			// example), but not one for this tag. Building a codec from the
+			// struct's fields instead would silently encode something else.
+			return nil, fmt.Errorf("no codec available for %s with tag %q", typ, tag)
+		}
 		c, err = plenccodec.BuildStructCodec(p, registry, typ, tag)
 		if err != nil {
 			return nil, err
